@@ -117,6 +117,41 @@ def owner_qualname(repo, fn, owners):
     return fn.qualname
 
 
+def owners_of(repo, fn, owners):
+    """the set of functions a private helper acts for: every listed owner (or public function) that reaches it through private
+    helpers; the helper itself when it is public, an owner, or cannot be followed"""
+    if fn.qualname in owners or not fn.name.startswith('_') or fn.name.startswith('__'):
+        return {fn.qualname}
+    owner_qualname(repo, fn, owners)        # fills the cache
+    _, callers, fns = _OWNER_CACHE[id(repo)]
+    seen = {fn.key}
+    frontier = {fn.key}
+    found = set()
+    for _ in range(6):
+        nxt = set()
+        for k in frontier:
+            all_cs = callers.get(k, set()) - {k}
+            cs = all_cs - seen
+            if not all_cs and k != fn.key:
+                found.add(fns[k].qualname if k in fns else k)
+            if not all_cs and k == fn.key:
+                return {fn.qualname}        # nobody calls it: it stands for itself
+            for c in cs:
+                seen.add(c)
+                f_ = fns.get(c)
+                q = f_.qualname if f_ is not None else c
+                if q in owners or f_ is None or not f_.name.startswith('_') or f_.name.startswith('__'):
+                    found.add(q)
+                else:
+                    nxt.add(c)
+        frontier = nxt
+        if not frontier:
+            break
+    if frontier or not found:
+        return {fn.qualname}
+    return found
+
+
 STRUCTSEQ_REPRS = [
     # (repr of a struct sequence as CPython writes it: typename(name=repr(element), ...), its field names)
     ("time.struct_time(tm_year=2020, tm_mon=1, tm_mday=2)", ('tm_year', 'tm_mon', 'tm_mday')),
@@ -269,7 +304,9 @@ def check_write_inventory(repo, rep, rule):
         seen.add(key)
         n += 1
         owners_ = {k_[1] for k_ in ALLOWED_CONE_WRITES}
-        reason = ALLOWED_CONE_WRITES.get((_canonical(repo, s.obj.name), owner_qualname(repo, s.fn, owners_), s.detail))
+        acting_for = owners_of(repo, s.fn, owners_)
+        reasons_ = [ALLOWED_CONE_WRITES.get((_canonical(repo, s.obj.name), o_, s.detail)) for o_ in sorted(acting_for)]
+        reason = '; '.join(sorted(set(reasons_))) if all(r_ is not None for r_ in reasons_) else None
         rep.check(reason is not None, rule, 'cone-write:%s:%s:%s' % key, s.where,
                   reason or '',
                   '%s %s module-level %s %s from inside the printing pipeline; only the listed idempotent writes are '
